@@ -836,15 +836,9 @@ func (c CustomExtension) Builder() (cert.ExtensionBuilder, error) {
 
 func readRawString(s string) ([]byte, error) {
 	if strings.HasPrefix(s, binaryPrefix) {
-		b64Str := strings.TrimPrefix(s, binaryPrefix)
-		dec := base64.NewDecoder(base64.StdEncoding, strings.NewReader(b64Str))
-
-		b := make([]byte, len(b64Str))
-		n, err := dec.Read(b)
-		if err != nil {
-			return nil, err
-		}
-		return b[:n], nil
+		//a single Read() of a base64 decoder stops after its internal buffer
+		//(768 bytes), so longer values have to be decoded as a whole
+		return base64.StdEncoding.DecodeString(strings.TrimPrefix(s, binaryPrefix))
 	} else if s == emptyPrefix {
 		//maybe this is unnecessary
 		return make([]byte, 0), nil
